@@ -15,6 +15,8 @@ pub mod c02;
 #[cfg(kani)]
 pub mod c03;
 #[cfg(kani)]
+pub mod c03n;
+#[cfg(kani)]
 pub mod c04;
 #[cfg(kani)]
 pub mod c05;
